@@ -10,14 +10,21 @@
 (* rejects the three canonical wrong renderers (non-vacuity).                  *)
 EXTENDS Render, Json
 CONSTANTS MaxDepth,   \* nesting depth below the root field
-          DeepAll,    \* TRUE: every seed is wrapped up to MaxDepth; FALSE: beyond depth 1 only the DeepSeed ones
+          DeepAll,    \* "quick": beyond depth 1 only DeepSeed seeds, QuickWraps at both levels;
+                      \* "thorough": the six GraphQL leaf kinds get every wrap at level 1 and ThoroughWraps2 at level 2 (other seeds as quick);
+                      \* "sim": every wrap at every level (simulation)
           SeedKinds   \* leaf kinds to start from (partitions the exhaustive run)
-VARIABLES T, j, d, deep
-vars == <<T, j, d, deep>>
+VARIABLES T, j, d, deep,   \* deep: "no" | "qw" | "full" -- which wraps may still be applied beyond depth 1
+          rb               \* TRUE: the root has a second, offending chain b before a
+vars == <<T, j, d, deep, rb>>
 
-Kinds == <<"String", "Int", "Float", "Boolean", "Enum", "Scalar">>
+OrigKinds == {"String", "Int", "Float", "Boolean", "Enum", "Scalar"}
+Kinds == <<"String", "Int", "Float", "Boolean", "Enum", "Scalar", "BigInt", "Custom",
+           "StaticString", "EmptyObject", "EmptyArray", "Null">>
 EnumT(n) == EnumNode(n, "Color", <<"RED", "GREEN", "HID">>, <<"HID">>)
-LeafT(k, n) == IF k = "Enum" THEN EnumT(n) ELSE Leaf(k, n)
+LeafT(k, n) == CASE k = "Enum" -> EnumT(n)
+                 [] k = "StaticString" -> Node(k, n, <<>>, <<>>, <<>>, "static value", <<>>, <<>>)
+                 [] OTHER -> Leaf(k, n)
 Str(n) == Leaf("String", n)
 
 Good(k) == CASE k = "String" -> JS("s")
@@ -26,6 +33,9 @@ Good(k) == CASE k = "String" -> JS("s")
              [] k = "Boolean" -> JB(TRUE)
              [] k = "Enum" -> JS("RED")
              [] k = "Scalar" -> JS("id-1")
+             [] k = "BigInt" -> JG("12345678901234567890")
+             [] k = "Custom" -> JS("s")
+             [] k \in ConstKinds -> JS("ignored")
 \* payload menu of a leaf position: 1 absent, 2 null, 3 right kind, 4.. other right / wrong kinds
 Extra(k) ==
   CASE k = "String" -> <<JI(5), JB(TRUE), JO(<<"x">>, <<JI(1)>>), JL(<<JS("q")>>), JS("")>>
@@ -35,16 +45,20 @@ Extra(k) ==
     [] k = "Enum" -> <<JS("ZZ"), JS("HID"), JI(0), JB(TRUE), JO(<<"x">>, <<JI(1)>>), JS("GREEN"),
                        JS("red"), JS("Green"), JS("hid")>>   \* differ from a declared (valid / inaccessible) value only in letter case
     [] k = "Scalar" -> <<JI(5), JF("2.5"), JB(FALSE), JO(<<"x">>, <<JI(1)>>), JL(<<JS("q"), JNull>>)>>
+    [] k = "BigInt" -> <<JI(5), JS("9"), JF("1.5")>>
+    [] k = "Custom" -> <<JI(5), JO(<<"x">>, <<JI(1)>>), JS("")>>        \* the custom resolver rejects non-strings
+    [] k \in ConstKinds -> <<JO(<<"x">>, <<JI(1)>>)>>
 Menu(k) == <<JAbsent, JNull, Good(k)>> \o Extra(k)
 \* seeds that are also wrapped beyond depth 1 when DeepAll = FALSE: the null / right / wrong-kind (number) String in both
 \* nullabilities, the enum with an invalid / inaccessible value (rendered null by both walks), the Int fraction
 DeepSeed(k, n, m) == \/ k = "String" /\ m \in 2..4 /\ (n => m # 3)
                      \/ k = "Enum" /\ m \in 4..5 /\ (~n => m = 5)
                      \/ k = "Int" /\ ~n /\ m = 4
+                     \/ k = "Custom" /\ m = 4
 
 RECURSIVE OkVal(_)
 OkVal(N) ==
-  CASE IsLeaf(N) -> Good(N.k)
+  CASE IsLeaf(N) \/ IsConst(N) -> Good(N.k)
     [] N.k = "Array" -> JL(<<OkVal(N.it[1])>>)
     [] N.k = "Object" ->
          LET fs == SelectSeq(N.fs, LAMBDA f : f.key # "__typename")
@@ -60,7 +74,11 @@ Abs1T(n, fs) == ObjectNode(n, "I1", <<"A">>, fs)
 OnA == <<"A">>
 OnB == <<"AB">>
 
-NWraps == 36
+\* second chain: an offender two levels down, absorbed by the nullable head of the chain
+ChainB == ObjT(TRUE, <<F("q", ObjT(FALSE, <<F("r", Str(FALSE))>>))>>)
+ChainBJ == JO(<<"q">>, <<JO(<<"r">>, <<JNull>>)>>)
+PonF(name, dd, names, v) == Fld(name, name, <<>>, <<[d |-> dd, names |-> names]>>, v)
+NWraps == 47
 WrapT(w, n, T0) ==
   CASE w \in {1, 7, 8, 9, 10} -> ObjT(n, <<F("f", T0)>>)
     [] w = 2 -> ObjT(n, <<F("e", Str(TRUE)), F("f", T0)>>)
@@ -78,6 +96,20 @@ WrapT(w, n, T0) ==
     \* nullable item) BEFORE the walk reaches the later sibling t, which is selected through a type condition
     [] w \in 33..34 -> AbsT(n, <<F("c", ObjT(TRUE, <<F("f", T0)>>)), Fld("t", "t", OnA, <<>>, Str(FALSE))>>)
     [] w \in 35..36 -> AbsT(n, <<F("c", ArrayNode(TRUE, T0)), Fld("t", "t", OnA, <<>>, Str(FALSE))>>)
+    \* post-fetch authorizer: the field f is denied
+    [] w = 37 -> ObjT(n, <<FldD("f", T0)>>)
+    [] w = 38 -> ObjT(n, <<F("e", Str(TRUE)), FldD("f", T0), F("g", Str(FALSE))>>)
+    [] w = 39 -> AbsT(n, <<[FldD("f", T0) EXCEPT !.on = OnA], Fld("g", "g", OnB, <<>>, Str(TRUE))>>)
+    \* ParentOnTypeNames at depth 2, at depth 1 through a list, and combined with OnTypeNames of an inner abstract object
+    [] w \in 40..41 -> AbsT(n, <<F("o", ObjT(FALSE, <<F("p", ObjT(TRUE, <<PonF("f", 2, OnA, T0), PonF("g", 2, OnB, Str(TRUE))>>))>>))>>)
+    [] w = 42 -> AbsT(n, <<F("o", ArrayNode(TRUE, ObjT(TRUE, <<PonF("f", 1, OnA, T0), PonF("g", 1, OnB, Str(TRUE))>>)))>>)
+    [] w = 43 -> AbsT(n, <<F("i", AbsT(TRUE, <<[PonF("f", 1, OnA, T0) EXCEPT !.on = OnA],
+                                                 [PonF("g", 1, OnB, Str(TRUE)) EXCEPT !.on = OnA]>>))>>)
+    \* two chains below one object: both offend, at different depths, in both orders
+    [] w = 44 -> ObjT(n, <<F("f", T0), F("h", ChainB)>>)
+    [] w = 45 -> ObjT(n, <<F("h", ChainB), F("f", T0)>>)
+    [] w = 46 -> ObjT(n, <<F("f", T0), F("h", ObjT(FALSE, <<F("r", Str(FALSE))>>))>>)
+    [] w = 47 -> ObjT(n, <<F("h", ArrayNode(FALSE, ObjT(TRUE, <<F("r", Str(FALSE))>>))), F("f", T0)>>)
     [] w \in 25..26 -> AbsT(n, <<F("o", ObjT(FALSE, <<Fld("f", "f", <<>>, <<[d |-> 1, names |-> OnA]>>, T0),
                                                        Fld("g", "g", <<>>, <<[d |-> 1, names |-> OnB]>>, Str(TRUE))>>))>>)
 WrapJ(w, T0, j0) ==
@@ -117,31 +149,54 @@ WrapJ(w, T0, j0) ==
     [] w = 34 -> JO(<<"__typename", "c", "t">>, <<JS("A"), JO(<<"f">>, <<j0>>), JS("s")>>)    \* ... or well-typed: must be rendered
     [] w = 35 -> JO(<<"__typename", "c", "t">>, <<JS("A"), JL(<<j0, OkVal(T0)>>), JNull>>)
     [] w = 36 -> JO(<<"__typename", "c", "t">>, <<JS("A"), JL(<<OkVal(T0), j0>>), JI(5)>>)    \* second offender ill-typed
+    [] w = 37 -> JO(<<"f">>, <<j0>>)
+    [] w = 38 -> JO(<<"e", "f", "g">>, <<JS("s"), j0, JS("s")>>)
+    [] w = 39 -> JO(<<"__typename", "f", "g">>, <<JS("A"), j0, JS("s")>>)
+    [] w = 40 -> JO(<<"__typename", "o">>, <<JS("A"), JO(<<"p">>, <<JO(<<"f", "g">>, <<j0, JS("s")>>)>>)>>)
+    [] w = 41 -> JO(<<"__typename", "o">>, <<JS("AB"), JO(<<"p">>, <<JO(<<"f", "g">>, <<j0, JS("s")>>)>>)>>)
+    [] w = 42 -> JO(<<"__typename", "o">>, <<JS("A"), JL(<<JO(<<"f", "g">>, <<j0, JS("s")>>), JO(<<"f", "g">>, <<OkVal(T0), JS("s")>>)>>)>>)
+    [] w = 43 -> JO(<<"__typename", "i">>, <<JS("A"), JO(<<"__typename", "f", "g">>, <<JS("A"), j0, JS("s")>>)>>)
+    [] w = 44 -> JO(<<"f", "h">>, <<j0, ChainBJ>>)
+    [] w = 45 -> JO(<<"h", "f">>, <<ChainBJ, j0>>)
+    [] w = 46 -> JO(<<"f", "h">>, <<j0, JO(<<"r">>, <<JNull>>)>>)
+    [] w = 47 -> JO(<<"h", "f">>, <<JL(<<JO(<<"r">>, <<JNull>>), JO(<<"r">>, <<JS("s")>>)>>), j0>>)
 
 Init == \E k \in Range(Kinds) \cap SeedKinds, n \in BOOLEAN :
           \E m \in 1..Len(Menu(k)) :
+            /\ (k \in ConstKinds => n = (k = "Null"))          \* constant nodes have no nullability of their own
             /\ T = LeafT(k, n)
             /\ j = Menu(k)[m]
             /\ d = 0
-            /\ deep = (DeepAll \/ DeepSeed(k, n, m))
+            /\ rb \in (IF k = "String" /\ m = 2 THEN BOOLEAN ELSE {FALSE})
+            /\ deep = IF DeepAll = "sim" THEN "full"
+                      ELSE IF DeepAll = "thorough" /\ k \in OrigKinds /\ ~rb THEN "full"
+                      ELSE IF DeepSeed(k, n, m) THEN "qw" ELSE "no"
 
-\* wraps applied beyond depth 1 when DeepAll = FALSE (quick tier): without the near-duplicates
-\* (2 ~ 3, 10 ~ 9, 14 ~ 7, 17 ~ 16, 18, 24 ~ 31, 26 ~ 21, 28 ~ 27, 32 ~ 22)
-QuickWraps == (1..NWraps) \ {2, 10, 14, 17, 18, 24, 26, 28, 32}
+\* wraps applied beyond depth 1 for "qw" seeds (both levels): one representative of every family
+QuickWraps == {1, 4, 5, 6, 7, 9, 11, 12, 16, 19, 21, 22, 25, 27, 29, 30, 33, 35, 37, 44, 45}
+\* second-level wraps of the exhaustive (thorough) run: everything but near-duplicates
+ThoroughWraps2 == (1..NWraps) \ {2, 10, 14, 17, 18, 24, 26, 28, 32, 38, 39, 41, 42, 43, 46, 47}
 Wrap(w, n) == /\ d < MaxDepth
-              /\ (d = 0 \/ DeepAll \/ (deep /\ w \in QuickWraps))
+              /\ \/ d = 0
+                 \/ DeepAll = "sim"
+                 \/ deep = "full" /\ w \in ThoroughWraps2
+                 \/ deep = "qw" /\ w \in QuickWraps
               /\ (w \in {12, 13, 35, 36} => j.t # "x")
+              \* Null / EmptyObject / EmptyArray have no path and are never planned for a protected field: not denied directly
+              /\ (w \in 37..39 => T.k \notin {"Null", "EmptyObject", "EmptyArray"})
               /\ T' = WrapT(w, n, T)
               /\ j' = WrapJ(w, T, j)
               /\ d' = d + 1
-              /\ UNCHANGED deep
+              /\ deep' = IF deep = "qw" /\ w \notin QuickWraps THEN "no" ELSE deep
+              /\ UNCHANGED rb
 
 Next == \E w \in 1..NWraps, n \in BOOLEAN : Wrap(w, n)
 Spec == Init /\ [][Next]_vars
 
 \* the case: the root object of a query plan (non-null, path empty) with the generated field and a sibling after it
-RootT == ObjectNode(FALSE, "Query", <<"Query">>, <<F("a", T), F("z", Str(TRUE))>>)
-RootJ == JO(<<"a", "z">>, <<j, JS("zz")>>)
+RootT == ObjectNode(FALSE, "Query", <<"Query">>,
+                    IF rb THEN <<F("b", ChainB), F("a", T), F("z", Str(TRUE))>> ELSE <<F("a", T), F("z", Str(TRUE))>>)
+RootJ == IF rb THEN JO(<<"b", "a", "z">>, <<ChainBJ, j, JS("zz")>>) ELSE JO(<<"a", "z">>, <<j, JS("zz")>>)
 RootOffs == Offs(RootT, RootJ, <<>>, NoAnc, <<>>, FALSE)
 
 \* stated as an INVARIANT so that TLC prints every distinct state exactly once
